@@ -1,7 +1,6 @@
 package main
 
 import (
-	"os/exec"
 	"encoding/json"
 	"flag"
 	"fmt"
@@ -9,10 +8,12 @@ import (
 	"go/token"
 	"go/types"
 	"os"
+	"os/exec"
 	"path/filepath"
 	"sort"
 	"strconv"
 	"strings"
+	"sync"
 	"time"
 )
 
@@ -552,6 +553,11 @@ func writeEvidence(vdir string, o checkOpts, runs []unitRun, obs []*Obligation, 
 		}
 		notes = append(notes, r.u.Notes...)
 	}
+	if len(runs) > 0 && runs[0].u != nil {
+		for _, rn := range runs[0].u.Prog.Renamed {
+			notes = append(notes, "function under contract found under a new name: "+rn)
+		}
+	}
 	trusted["the govc translation of Go into verification conditions (semantic model of DESIGN.md section 4) and its weakest-precondition/symbolic-execution engine"] = true
 	trusted["SMT solvers z3 4.8.12, z3 5.1.0, cvc5 1.0.x: an unsat answer from one of them is accepted"] = true
 	secs := map[string]float64{}
@@ -672,69 +678,92 @@ func runCanaries(o checkOpts) []map[string]interface{} {
 	if err != nil {
 		return out
 	}
-	for _, patch := range seeds {
-		id := filepath.Base(filepath.Dir(patch))
-		if isBenign[patch] {
-			id = strings.TrimSuffix(filepath.Base(patch), ".diff")
-		}
-		rec := map[string]interface{}{"seed": id}
-		if isBenign[patch] {
-			rec["kind"] = "behaviour-preserving edit: must not be reported"
-		}
-		scratch, err := os.MkdirTemp("", "govc-canary-")
-		if err != nil {
-			rec["result"] = "skipped: " + err.Error()
-			out = append(out, rec)
-			continue
-		}
-		func() {
-			defer os.RemoveAll(scratch)
-			repoCopy := filepath.Join(scratch, "repo")
-			if b, err := exec.Command("cp", "-a", o.repo, repoCopy).CombinedOutput(); err != nil {
-				rec["result"] = "skipped: copy failed: " + strings.TrimSpace(string(b))
+	// three at a time: each run is itself parallel over its solver queries
+	recs := make([]map[string]interface{}, len(seeds))
+	sem := make(chan struct{}, 3)
+	var cwg sync.WaitGroup
+	var pmu sync.Mutex
+	for idx, patch := range seeds {
+		idx, patch := idx, patch
+		cwg.Add(1)
+		sem <- struct{}{}
+		go func() {
+			defer cwg.Done()
+			defer func() { <-sem }()
+			id := filepath.Base(filepath.Dir(patch))
+			if isBenign[patch] {
+				id = strings.TrimSuffix(filepath.Base(patch), ".diff")
+			}
+			rec := map[string]interface{}{"seed": id}
+			if isBenign[patch] {
+				rec["kind"] = "behaviour-preserving edit: must not be reported"
+			}
+			scratch, err := os.MkdirTemp("", "govc-canary-")
+			if err != nil {
+				rec["result"] = "skipped: " + err.Error()
+				recs[idx] = rec
 				return
 			}
-			os.RemoveAll(filepath.Join(repoCopy, ".git"))
-			ap := exec.Command("git", "apply", "--unsafe-paths", "--directory="+repoCopy, patch)
-			ap.Dir = scratch
-			if b, err := ap.CombinedOutput(); err != nil {
-				// fall back to patch(1)-like application from inside the copy
-				ap2 := exec.Command("git", "apply", patch)
-				ap2.Dir = repoCopy
-				if b2, err2 := ap2.CombinedOutput(); err2 != nil {
-					rec["result"] = "skipped: patch does not apply to the current tree: " + strings.TrimSpace(string(b)+" "+string(b2))
+			func() {
+				defer os.RemoveAll(scratch)
+				repoCopy := filepath.Join(scratch, "repo")
+				if b, err := exec.Command("cp", "-a", o.repo, repoCopy).CombinedOutput(); err != nil {
+					rec["result"] = "skipped: copy failed: " + strings.TrimSpace(string(b))
 					return
 				}
-			}
-			cmd := exec.Command(self, "check", "--property", o.prop, "--tier", "quick", "--repo", repoCopy, "--contracts", o.contracts)
-			cmd.Env = append(os.Environ(), "GOVC_SCRATCH="+filepath.Join(scratch, "out"), "VERIF_TIER=quick")
-			b, _ := cmd.CombinedOutput()
-			n := strings.Count(string(b), "VIOLATION property=")
-			rec["violations_reported"] = n
-			if isBenign[patch] {
-				if n == 0 {
-					rec["result"] = "not reported (as it should be)"
-				} else if why := knownLimit(id); why != "" {
-					rec["result"] = "reported - a known limit of the technique (DESIGN.md 13.10): " + why
-					fmt.Printf("SELFTEST-NOTE: property=%s behaviour-preserving edit %s is reported (known limit: %s)\n", o.prop, id, why)
-				} else {
-					rec["result"] = "FALSE ALARM"
-					fmt.Printf("SELFTEST-WARNING: property=%s behaviour-preserving edit %s was reported as a violation\n", o.prop, id)
+				os.RemoveAll(filepath.Join(repoCopy, ".git"))
+				ap := exec.Command("git", "apply", "--unsafe-paths", "--directory="+repoCopy, patch)
+				ap.Dir = scratch
+				if b, err := ap.CombinedOutput(); err != nil {
+					// fall back to patch(1)-like application from inside the copy
+					ap2 := exec.Command("git", "apply", patch)
+					ap2.Dir = repoCopy
+					if b2, err2 := ap2.CombinedOutput(); err2 != nil {
+						rec["result"] = "skipped: patch does not apply to the current tree: " + strings.TrimSpace(string(b)+" "+string(b2))
+						return
+					}
 				}
-				return
-			}
-			if n > 0 {
-				rec["result"] = "detected"
-			} else {
-				rec["result"] = "NOT DETECTED"
-				fmt.Printf("SELFTEST-WARNING: property=%s seeded change %s was not reported by the check\n", o.prop, id)
-			}
+				cmd := exec.Command(self, "check", "--property", o.prop, "--tier", "quick", "--repo", repoCopy, "--contracts", o.contracts)
+				cmd.Env = append(os.Environ(), "GOVC_SCRATCH="+filepath.Join(scratch, "out"), "VERIF_TIER=quick")
+				b, _ := cmd.CombinedOutput()
+				n := strings.Count(string(b), "VIOLATION property=")
+				rec["violations_reported"] = n
+				if isBenign[patch] {
+					if n == 0 {
+						rec["result"] = "not reported (as it should be)"
+					} else if why := knownLimit(id); why != "" {
+						rec["result"] = "reported - a known limit of the technique (DESIGN.md 13.10): " + why
+						pmu.Lock()
+						defer pmu.Unlock()
+						fmt.Printf("SELFTEST-NOTE: property=%s behaviour-preserving edit %s is reported (known limit: %s)\n", o.prop, id, why)
+					} else {
+						rec["result"] = "FALSE ALARM"
+						pmu.Lock()
+						defer pmu.Unlock()
+						fmt.Printf("SELFTEST-WARNING: property=%s behaviour-preserving edit %s was reported as a violation\n", o.prop, id)
+					}
+					return
+				}
+				if n > 0 {
+					rec["result"] = "detected"
+				} else {
+					rec["result"] = "NOT DETECTED"
+					pmu.Lock()
+					defer pmu.Unlock()
+					fmt.Printf("SELFTEST-WARNING: property=%s seeded change %s was not reported by the check\n", o.prop, id)
+				}
+			}()
+			recs[idx] = rec
 		}()
-		out = append(out, rec)
+	}
+	cwg.Wait()
+	for _, r := range recs {
+		if r != nil {
+			out = append(out, r)
+		}
 	}
 	return out
 }
-
 
 // govc names: print the "//@ vars" index (variable names in source order of every function under contract) for the
 // contract files of one package directory ("" = root); tools/gen_names.sh writes it to contracts_verif_names.go
@@ -768,6 +797,19 @@ func cmdNames(args []string) int {
 			continue
 		}
 		fmt.Printf("//@ vars %s: %s\n", strings.TrimPrefix(k, *prefix), strings.Join(varsOf(fi), " "))
+	}
+	// the signatures of all functions of the package (see rebindRenamedFuncs)
+	var all []string
+	for k := range prog.Funcs {
+		has := strings.Contains(k, ":")
+		if (*prefix == "") == has || (has && !strings.HasPrefix(k, *prefix)) {
+			continue
+		}
+		all = append(all, k)
+	}
+	sort.Strings(all)
+	for _, k := range all {
+		fmt.Printf("//@ sig %s: %s\n", strings.TrimPrefix(k, *prefix), sigString(prog.Funcs[k]))
 	}
 	return 0
 }
@@ -899,7 +941,6 @@ func (p *Program) renames(fi *FuncInfo) map[string]string {
 	return m
 }
 
-
 // /verif/benign/KNOWN_LIMITS.txt: "<id>: <why>" for the stored behaviour-preserving edits that this technique cannot keep quiet
 func knownLimit(id string) string {
 	b, err := os.ReadFile(filepath.Join(verifDir(), "benign", "KNOWN_LIMITS.txt"))
@@ -913,7 +954,6 @@ func knownLimit(id string) string {
 	}
 	return ""
 }
-
 
 // counterRenames[name] = ordinal of a range loop without a key variable: a recorded int local that is gone and has no new int
 // local to be read as (see renames) is read as the iteration counter of the k-th such loop, in source order - an index loop
